@@ -7,6 +7,8 @@ import json, os, re, subprocess, sys, tempfile, shutil
 HOME = '/verif'
 
 def sh(cmd, **kw):
+    # (a detection run only needs the first violation: the check stops there)
+    kw.setdefault('env', dict(os.environ, VERIF_STOP_AT_FIRST_VIOLATION='1'))
     return subprocess.run(cmd, capture_output=True, text=True, **kw)
 
 def revert_patch(commit: str) -> str:
@@ -53,7 +55,7 @@ def main():
             results[f] = {'property': m.group(1), 'exit': rc, 'detected': rc == 1, 'signatures': sigs}
             print(f, 'exit=%s' % rc, 'DETECTED' if rc == 1 else 'MISSED', sigs[:2])
     path = f'{HOME}/mutants/RESULTS.json'
-    old = json.load(open(path)) if os.path.exists(path) else {}
+    old = (json.load(open(path)) if os.path.exists(path) else {}) if only else {}
     old.update(results)
     json.dump(old, open(path, 'w'), indent=1, sort_keys=True)
 
